@@ -1,4 +1,6 @@
-"""Fail-closed translator: the code the user actions call  ->  coq/Gen/Core_gen.v
+"""Fail-closed translator: the code the user actions call  ->  coq/Gen/CoreQueries_gen.v (data_model/solution_tracks.py),
+CoreTracks_gen.v (data_model/tracks.py), CoreAnnot_gen.v (annotators/_track_annotator.py), CoreActions_gen.v (actions/*.py);
+each imports only the earlier ones it really calls and fails closed on its own.  Gen/Core_gen.v only re-exports the four.
 
 Each method listed in FUNCS is turned into one Gallina definition `gen_<name>` in the `res` monad of
 Model/Edit.v (shallow embedding: the state `s` is threaded explicitly; `self` is the part of the state the
@@ -164,6 +166,16 @@ FUNCS = [
     (AA, "UpdateNodeAttrs", "__init__", "gen_UpdateNodeAttrs_init"),
     (AA, "UpdateNodeAttrs", "inverse", "gen_UpdateNodeAttrs_inverse"),
 ]
+# one generated file per source group (so that a refused source only takes down what really depends on it)
+GROUPS = [("queries", "CoreQueries_gen", "data_model/solution_tracks.py"), ("tracks", "CoreTracks_gen", "data_model/tracks.py"),
+          ("annot", "CoreAnnot_gen", "annotators/_track_annotator.py"), ("actions", "CoreActions_gen", "actions/*.py")]
+GROUP_FILE = {g: f for g, f, _ in GROUPS}
+
+
+def group_of_rel(rel):
+    return {ST: "queries", TR: "tracks", TA: "annot"}.get(rel, "actions")
+
+
 KIND = {"SolutionTracks": "TRACKS", "Tracks": "TRACKS", "TrackAnnotator": "ANNOT", "UpdateTrackIDs": "ACT", "AddNode": "ACT", "DeleteNode": "ACT",
         "AddEdge": "ACT", "DeleteEdge": "ACT", "UpdateNodeAttrs": "ACT", "UpdateNodeSeg": "ACT"}
 # classes a TRACKS receiver resolves methods / properties in, most derived first
@@ -208,7 +220,17 @@ ATTR = {
 FEATURE_LISTS = {"node_features": "(reg_node (ft s))", "edge_features": "(reg_edge (ft s))"}
 ACTIVE = {"KTrack": "(trk_act (ft s))", "KLin": "(lin_act (ft s))"}
 
-CUR = {"file": "?", "n": 0, "fuel": False, "self": None, "trees": {}, "sigs": {}, "repo": REPO}
+CUR = {"file": "?", "n": 0, "fuel": False, "self": None, "trees": {}, "sigs": {}, "repo": REPO, "uses": set(), "failed": {}}
+GROUP_OF_GEN = {}      # generated name -> group (filled from FUNCS below)
+
+
+def use_sig(gen, node=None):
+    """the signature of an already translated definition (None: not translated yet); records the cross-file use"""
+    if gen in CUR["failed"]:
+        raise Unsupported("%s:%s: calls %s, whose source was refused: %s" % (CUR["file"], getattr(node, "lineno", "?"), gen, CUR["failed"][gen]))
+    sig = CUR["sigs"].get(gen)
+    if sig is not None and gen in GROUP_OF_GEN: CUR["uses"].add(GROUP_OF_GEN[gen])
+    return sig
 
 
 def fail(node, why):
@@ -395,7 +417,7 @@ def property_value(name, node):
 def resolve_call(kind, name):
     """a call of a translated method on a receiver of this kind -> its signature, else None"""
     for (rel, cls, meth, gen) in FUNCS:
-        if meth == name and KIND[cls] == kind: return CUR["sigs"].get(gen, "later")
+        if meth == name and KIND[cls] == kind: return use_sig(gen) or "later"
     return None
 
 
@@ -574,7 +596,7 @@ def sort_key(c, env):
 def call(n, env, pre, hoist, sub, Zof):
     f, args, kws = n.func, n.args, n.keywords
     if isinstance(f, ast.Name) and f.id in ACTION_FIELDS:       # an action constructor: applies the action
-        sig = CUR["sigs"].get("gen_%s_init" % f.id)
+        sig = use_sig("gen_%s_init" % f.id, n)
         if sig is None: fail(n, "constructor of a class that is not translated (yet)")
         params, rty, fuel, gen = sig
         if not args or sub(args[0]).ty != "TRACKS": fail(n, "first argument must be the tracks")
@@ -628,7 +650,7 @@ def call(n, env, pre, hoist, sub, Zof):
     if recv.ty == "HISTORY" and m in ("undo", "redo") and not kw and not args:
         return hoist("hist_%s s" % m, "bool", "b", effect=True)
     if recv.ty == "SELFACT":
-        sig = CUR["sigs"].get("gen_%s_%s" % (recv.arg, m.lstrip("_")))
+        sig = use_sig("gen_%s_%s" % (recv.arg, m.lstrip("_")), n)
         if sig is None or m not in ("_apply", "inverse") or args or kws: fail(n, "method of an action class")
         params, rty, fuel, gen = sig
         if fuel: CUR["fuel"] = True
@@ -1133,7 +1155,7 @@ def block(stmts, env, k, ctx):
         if recv.ty == "TRACKS" and f.attr == "notify_annotators" and len(c.args) == 1 and not c.keywords:
             a = ex(c.args[0], env, None)
             if a.ty != "SELFACT": fail(s, "notify_annotators of something that is not self")
-            sig = CUR["sigs"].get("gen_track_annotator_update")
+            sig = use_sig("gen_track_annotator_update", s)
             if sig is None: fail(s, "TrackAnnotator.update is not translated")
             if sig[2]: CUR["fuel"] = True
             b = action_value(s, a, env)
@@ -1331,44 +1353,108 @@ def translate_function(rel, cls_name, meth, gen):
     return "%s\nDefinition %s%s : res %s :=\n%s.\n" % (head, gen, ps, rt, ind(txt))
 
 
-HEADER = """(* GENERATED by harness/translate_core.py from %s/src/funtracks -- do not edit.
+HEADER = """(* GENERATED by harness/translate_core.py from %s/src/funtracks/%s -- do not edit.
    Shallow embedding, in the res monad of Model/Edit.v, of the code the user actions call; the idiom table
    is at the top of the translator, the runtime combinators in Model/PyRt3.v (and Model/PyRt.v). *)
 From Coq Require Import ZArith List Bool.
-From FT Require Import Base.Dict Model.Edit Model.PyRt Model.PyRt3.
+From FT Require Import Base.Dict Model.Edit Model.PyRt Model.PyRt3%s.
 Import ListNotations.
 Open Scope Z_scope.
 """
+for _rel, _cls, _meth, _gen in FUNCS: GROUP_OF_GEN[_gen] = group_of_rel(_rel)
+
+
+def failed_text(msg):
+    return "(* TRANSLATION FAILED: %s *)\nDefinition translation_failed : False := I.\n" % msg.replace("*)", "* )").replace("(*", "( *")
+
+
+def translate_groups(repo=None, upto=None):
+    """translate the source groups in order; returns {group: (ok, text, message)}.  A group whose source is refused
+    becomes a file that does not type-check; only the groups that really call into it fail with it."""
+    CUR["repo"] = repo or os.environ.get("VERIF_REPO", REPO)
+    CUR["trees"] = {}; CUR["sigs"] = {}; CUR["failed"] = {}
+    res = {}
+    for grp, fname, srcs in GROUPS:
+        CUR["uses"] = set()
+        parts = []
+        try:
+            for rel, cls, meth, gen in FUNCS:
+                if group_of_rel(rel) == grp: parts.append(translate_function(rel, cls, meth, gen))
+            ok, msg = True, "translated"
+        except Unsupported as e:
+            ok, msg = False, str(e)
+        except Exception as e:      # a bug of the translator (or an unreadable source) must not look like a translation
+            ok, msg = False, "internal error %s: %s" % (type(e).__name__, e)
+        if ok:
+            imports = "".join(" Gen.%s" % GROUP_FILE[g] for g, _, _ in GROUPS if g in CUR["uses"] and g != grp)
+            res[grp] = (True, "\n".join([HEADER % (CUR["repo"], srcs, imports)] + parts), msg)
+        else:
+            for gen, g in GROUP_OF_GEN.items():
+                if g == grp: CUR["sigs"].pop(gen, None); CUR["failed"][gen] = msg
+            res[grp] = (False, failed_text(msg), msg)
+        if grp == upto: break
+    return res
+
+
+def umbrella(res):
+    """Gen/Core_gen.v: nothing of its own -- re-exports the four files and gives every generated definition its old
+    qualified name Core_gen.gen_x (a parsing-only abbreviation).  Only Proofs/CoreTie*.v are meant to need it."""
+    lines = ["(* GENERATED by harness/translate_core.py -- do not edit.  The generated definitions live in Gen/CoreQueries_gen.v,",
+             "   CoreTracks_gen.v, CoreAnnot_gen.v and CoreActions_gen.v (one per source group); this file only re-exports them. *)",
+             "From FT Require Export %s." % " ".join("Gen.%s" % f for _, f, _ in GROUPS)]
+    for rel, cls, meth, gen in FUNCS:
+        lines.append("Notation %s := %s.%s (only parsing)." % (gen, GROUP_FILE[group_of_rel(rel)], gen))
+    return "\n".join(lines) + "\n"
 
 
 def main(repo=None):
-    CUR["repo"] = repo or os.environ.get("VERIF_REPO", REPO)
-    CUR["trees"] = {}; CUR["sigs"] = {}
-    parts = [HEADER % CUR["repo"]]
-    for rel, cls, meth, gen in FUNCS:
-        parts.append(translate_function(rel, cls, meth, gen))
-    return "\n".join(parts)
+    """all generated text (used by the mutation campaign to see whether a mutant changes anything); raises Unsupported
+    when any group is refused"""
+    res = translate_groups(repo)
+    for grp, _, _ in GROUPS:
+        if not res[grp][0]: raise Unsupported(res[grp][2])
+    return "\n".join(res[grp][1] for grp, _, _ in GROUPS)
+
+
+def strip_header(t):
+    return "\n".join(l for l in t.split("\n") if "sha256=" not in l and not l.startswith("(* GENERATED"))
+
+
+def write_if_changed(path, txt):
+    os.makedirs(os.path.dirname(path), exist_ok=True)
+    old = open(path).read() if os.path.exists(path) else None
+    if old is None or strip_header(old) != strip_header(txt):
+        open(path, "w").write(txt)
 
 
 def regenerate(out=None, repo=None):
-    """(re)write Gen/Core_gen.v from the current sources; returns (ok, message).  A source outside the idiom
-    table yields a file that does not type-check (fail closed).  The file is written only when its content
-    (header and hash lines apart) changes."""
+    """(re)write Gen/CoreQueries_gen.v, CoreTracks_gen.v, CoreAnnot_gen.v, CoreActions_gen.v and the re-exporting
+    Gen/Core_gen.v (`out`: its path; the four go next to it) from the current sources.  Returns (ok, message): ok iff all
+    four were translated, the message names the refused file(s).  A source outside the idiom table yields a file that does
+    not type-check (fail closed) -- that file and the ones that call into it, nothing else.  Files are written only when
+    their content (header and hash lines apart) changes."""
     out = out or OUT
-    try:
-        txt = main(repo); ok = True; msg = "translated"
-    except Unsupported as e:
-        txt = "(* TRANSLATION FAILED: %s *)\nDefinition translation_failed : False := I.\n" % str(e).replace("*)", "* )")
-        ok = False; msg = str(e)
-    except Exception as e:      # a bug of the translator must not look like a translation
-        txt = "(* TRANSLATION FAILED: %s: %s *)\nDefinition translation_failed : False := I.\n" % (type(e).__name__, str(e).replace("*)", "* )"))
-        ok = False; msg = "internal error %s: %s" % (type(e).__name__, e)
-    os.makedirs(os.path.dirname(out), exist_ok=True)
-    old = open(out).read() if os.path.exists(out) else None
-    strip = lambda t: "\n".join(l for l in t.split("\n") if "sha256=" not in l and not l.startswith("(* GENERATED"))
-    if old is None or strip(old) != strip(txt):
-        open(out, "w").write(txt)
-    return ok, msg
+    d = os.path.dirname(out)
+    res = translate_groups(repo)
+    for grp, fname, _ in GROUPS: write_if_changed(os.path.join(d, fname + ".v"), res[grp][1])
+    write_if_changed(out, umbrella(res))
+    bad = ["Gen/%s.v: %s" % (GROUP_FILE[g], res[g][2]) for g, _, _ in GROUPS if not res[g][0]]
+    return (not bad), ("translated" if not bad else "; ".join(bad))
+
+
+def regenerate_one(which, out_dir=None, repo=None):
+    """(re)write only the generated file of one group ("queries" | "tracks" | "annot" | "actions"); the groups before it
+    are translated in memory for their signatures.  Returns (ok, message) for that file."""
+    if which not in GROUP_FILE: raise ValueError("unknown group %r" % which)
+    res = translate_groups(repo, upto=which)
+    write_if_changed(os.path.join(out_dir or os.path.dirname(OUT), GROUP_FILE[which] + ".v"), res[which][1])
+    return res[which][0], res[which][2]
+
+
+def regenerate_queries(): return regenerate_one("queries")
+def regenerate_tracks(): return regenerate_one("tracks")
+def regenerate_annot(): return regenerate_one("annot")
+def regenerate_actions(): return regenerate_one("actions")
 
 
 if __name__ == "__main__":
